@@ -25,8 +25,8 @@ MANIFEST = dict(
          "has passed its compare-and-swap every new call takes the error path and returns the latched error, which is ErrClosing when "
          "Close came first and never changes (C04_after_close, C04_error_path_returns_latched, C04_close_latches_errclosing, "
          "C04_latched_error_is_stable). Tie: fault enumeration on a real client (every command index x before/after/mid-reply/Close) "
-         "with the oracle 'every call returns within the bound with an error or its own reply; a later call succeeds on a fresh "
-         "connection; after Close calls return ErrClosing', and replay of every connection's frames through the model's reader.",
+         "with the oracle 'every call returns within the bound with an error or its own reply; once the client has noticed the failure a later call succeeds on "
+         "a fresh connection (one of at most 6 consecutive follow-up calls, each returning promptly); after Close calls return ErrClosing', and replay of every connection's frames through the model's reader.",
     note="Partial for scheduling/timing: termination within a wall-clock bound is measured by the tie, the theorems state non-stuckness and "
          "the state after termination. The mux's replacement of a broken wire (isBroken, CAS back to init) is exercised by the tie only "
          "(later call on a fresh connection), not modelled. One defect found by the tie was repaired: after a failed dial, calls on a closed "
